@@ -360,6 +360,10 @@ func (r *ConwayRedeemers) UnmarshalJSON(data []byte) error {
 }
 
 func (r *ConwayRedeemers) MarshalCBOR() ([]byte, error) {
+	// Return stored CBOR if available
+	if r.Cbor() != nil {
+		return r.Cbor(), nil
+	}
 	if r.legacy {
 		return cbor.Encode(r.legacyRedeemers)
 	}
